@@ -4,7 +4,7 @@ from . import _blockcheck as bc
 from ..catalog import kinds_with
 
 PROP = 'C08'
-TIERS = {'quick': 9000, 'thorough': 100000}
+TIERS = {'quick': 9000, 'thorough': 600000}
 RULE = ('each run: one logic / bit-manipulation / selector / comparator block (2-input and n-ary gates, reductions, bit, '
         'range, bit split both orders, concatenation both orders, repeat, enable-buffer, mux 2..8-way, demux, decoder, '
         'one-hot mux/demux, select, default-select chain, priority encoder both directions, minterm, sum of minterms, '
